@@ -120,7 +120,9 @@ def build(style, cfg, trace):
         for n, f in logic.guards.items():
             ns["grd_" + str(abs(hash(n)))] = __import__("xstate_statemachine").guard(n)(lambda self, c, e, _f=f: _f(c, e))
         cls = type("GenMachine", (StateMachine,), ns)
-        return cls.create_machine()
+        m = cls.create_machine()
+        m._verif_rebuild = cls.create_machine
+        return m
     b = MachineBuilder(cfg["id"]).context(copy.deepcopy(cfg.get("context")))
     for k, c in cfg["states"].items():
         kw = _state_kwargs(c, k)
@@ -139,7 +141,9 @@ def build(style, cfg, trace):
         b.action(n, f)
     for n, f in logic.guards.items():
         b.guard(n, f)
-    return b.build()
+    m = b.build()
+    m._verif_rebuild = b.build          # a second build from the SAME definition
+    return m
 
 
 def _run(machine, events, trace):
@@ -178,7 +182,7 @@ def run_api(case):
     t1, t2, t3 = M.Trace(), M.Trace(), M.Trace()
     try:
         m1 = build(case["style"], cfg, t1)
-        m2 = build(case["style"], cfg, t2)
+        m2 = m1._verif_rebuild() if hasattr(m1, "_verif_rebuild") else build(case["style"], cfg, t2)
     except Exception as e:
         res["problems"].append(("python-definition-rejected", f"{type(e).__name__}: {e}"[:300]))
         return res
@@ -204,6 +208,19 @@ def run_api(case):
         m1.initial_context["junk"] = 1
     if json.dumps(fingerprint(m2), default=str, sort_keys=True) != fp2:
         res["problems"].append(("builds-share-mutable-structure", ""))
+    # the logic registries of two builds are independent too: rebinding an implementation on one build
+    # (or on the definition after building) must not change what another build runs
+    for reg in ("actions", "guards", "services"):
+        d1, d2 = getattr(m1.logic, reg), getattr(m2.logic, reg)
+        if d1 and d1 is d2:
+            res["problems"].append(("builds-share-logic-registry", reg))
+            break
+    if m1.logic.actions:
+        k0 = sorted(m1.logic.actions)[0]
+        keep = m2.logic.actions.get(k0)
+        m1.logic.actions[k0] = lambda *a: None
+        if m2.logic.actions.get(k0) is not keep:
+            res["problems"].append(("rebinding-on-one-build-leaks-into-another", k0))
     m3 = build(case["style"], cfg, t3)
     if diff(json.loads(json.dumps(ref_fp, default=str)), json.loads(json.dumps(fingerprint(m3), default=str))):
         res["problems"].append(("later-build-affected-by-earlier-one", ""))
